@@ -30,6 +30,7 @@ class Walker:
         self.view_rot = 0
         self.nswp = nswp
         self.trace = []             # op names, for signatures
+        self.keep = []              # bases of view-produced operands stay alive, so that aliasing between base and view is observable
         self.derived = 0
 
     # ---- operand supply -------------------------------------------------------------------------------
@@ -47,26 +48,34 @@ class Walker:
                 view = VIEWS[self.view_rot % len(VIEWS)]
                 self.view_rot += 1
         c = self.ctx
+        mk = gens.make_tt
+
+        def base(*a, **k):
+            b = mk(*a, **k)
+            self.keep.append(b)
+            if len(self.keep) > 24:
+                self.keep.pop(0)
+            return b
         if view == 'slice':
-            big = gens.make_tt([n + 1 for n in N], R, self.dt, vals, self.g, M=[m + 1 for m in M] if M else None)
+            big = base([n + 1 for n in N], R, self.dt, vals, self.g, M=[m + 1 for m in M] if M else None)
             idx = tuple(slice(0, m) for m in M) + tuple(slice(1, n + 1) for n in N) if M else tuple(slice(1, n + 1) for n in N)
             r = c.lib('getitem', lambda t: t[idx], big)
         elif view == 't' and M:
-            r = c.lib('t', lambda t: t.t(), gens.make_tt(M, R, self.dt, vals, self.g, M=N))
+            r = c.lib('t', lambda t: t.t(), base(M, R, self.dt, vals, self.g, M=N))
         elif view == 'conj':
-            r = c.lib('conj', lambda t: t.conj(), gens.make_tt(N, R, self.dt, vals, self.g, M=M))
+            r = c.lib('conj', lambda t: t.conj(), base(N, R, self.dt, vals, self.g, M=M))
         elif view == 'sum' and d < MAX_ORDER:
             k = self.rng.randint(0, d)
             N2 = N[:k] + [2] + N[k:]
             M2 = (M[:k] + [2] + M[k:]) if M else None
             R2 = (R[:k + 1] + [self.rng.randint(1, 2)] + R[k + 1:]) if k < d else (R[:d] + [self.rng.randint(1, 2), 1])
-            r = c.lib('sum', lambda t: t.sum(k), gens.make_tt(N2, R2, self.dt, vals, self.g, M=M2))
+            r = c.lib('sum', lambda t: t.sum(k), base(N2, R2, self.dt, vals, self.g, M=M2))
             if isinstance(r, self.tt.TT) and (list(r.N) != list(N) or (M and list(r.M) != list(M))):
                 r = None       # singleton modes were dropped by reduce_dims: not the requested structure
         elif view == 'to_ttm' and M and all(n == 1 for n in N):
-            r = c.lib('to_ttm', lambda t: t.to_ttm(), gens.make_tt(M, R, self.dt, vals, self.g))
+            r = c.lib('to_ttm', lambda t: t.to_ttm(), base(M, R, self.dt, vals, self.g))
         elif view == 'detach':
-            r = c.lib('detach', lambda t: t.detach(), gens.make_tt(N, R, self.dt, vals, self.g, M=M))
+            r = c.lib('detach', lambda t: t.detach(), base(N, R, self.dt, vals, self.g, M=M))
         elif view == 'clone-of-view':
             r = c.lib('conj', lambda t: t.conj(), gens.make_tt(N, R, self.dt, vals, self.g, M=M))
             if isinstance(r, self.tt.TT):
